@@ -151,7 +151,7 @@ def run_case(case):
     res = float(zm * rng.uniform(0.125, 2.0))
     ncell = int(rng.integers(12, 40))
     wdkind = str(rng.choice(["none", "cardinal", "arbitrary", "near_cardinal", "integer_typed"]))
-    wd = None if wdkind == "none" else (float(rng.choice([0, 90, 180, 270])) if wdkind == "cardinal" else float(rng.uniform(0, 360)))
+    wd = None if wdkind == "none" else (float(rng.choice([0, 90, 180, 270, 0, 90, 180, 270, 360, 450, 540, 630, 720, -90, -180, -270, -360])) if wdkind == "cardinal" else float(rng.uniform(0, 360)))
     if wdkind == "near_cardinal":
         # a hair beside a multiple of 90 degrees (what rad2deg(arctan2(-u, -v)) returns for a wind that is cardinal up to round-off)
         c90 = float(rng.choice([90.0, 180.0, 270.0, 360.0]))
